@@ -37,7 +37,8 @@ fn client_for(code: u8) -> Client {
 
 pub fn draw_input(r: &mut SplitMix64) -> InputKind {
     match r.below(12) {
-        0 | 1 => InputKind::Str,
+        0 => InputKind::Str,
+        1 => InputKind::MeteredStr,
         2 | 3 => InputKind::Buffered,
         4 => InputKind::BufferedBare,
         5..=8 => {
